@@ -15,7 +15,10 @@ Inductive case :=
 | CMap (gens : list (list MapRun.mfunc)) (inputs : MapRun.env) (internal : MapSpec.shape_dict)
        (dump_sub par inproc : bool) (entry : nat) (tgt : str) (e : exn).
     (* dump_sub: StorageBase.dump_in_subprocess of the storage;  par: an executor is used;  inproc: the user
-       functions run in the calling process (sequential / threads);  entry: which API (informative only) *)
+       functions run in the calling process (sequential / threads);  entry: which API -- 0 map(parallel=False),
+       1 map(executor=ThreadPoolExecutor), 2 map(executor=ProcessPoolExecutor), 3 map(parallel=True) with pipefunc's
+       own pool, 4 / 5 map_async with a thread / process pool, 6 / 7 = 0 / 1 with output_names=<all outputs>
+       (map executes a subpipeline copy; the snapshots are exposed on the pipeline map was called on) *)
 
 Definition mkexn (c : str) (a : list str) : exn := {| cls := c; eargs := a |}.
 
